@@ -41,6 +41,8 @@ m = {
     "engines": [
         {"name": "pbt-tape (rapidcheck)", "path": "src/common/pbt_engine.cpp", "serves_properties": [c["property_id"] for c in checks],
          "kind_free_text": "rapidcheck generates and shrinks fixed-length choice tapes that each property decodes into structured cases; the same bodies run systematic sweeps, saved replays and libFuzzer inputs"},
+        {"name": "libFuzzer + ASan over the same bodies", "path": "src/fuzz/fuzz_engine.cpp", "serves_properties": ["C06"],
+         "kind_free_text": "configuration asan: clang -fsanitize=fuzzer,address; byte 0 of an input selects the sub-property, the remaining bytes are the little-endian choice tape; failures are written as the same replay files"},
     ],
     "checks": checks,
     "not_applicable": na,
